@@ -24,6 +24,8 @@ import Mahotas.Proofs.C12Exceptions
 import Mahotas.Proofs.C12Label
 import Mahotas.Proofs.C12Cwatershed
 import Mahotas.Proofs.C12Kernels2
+import Mahotas.Proofs.C12Histogram
+import Mahotas.Proofs.C12Kernels3
 import Mahotas.Generated.Statics
 namespace Mahotas.C12
 open Mahotas
@@ -1105,3 +1107,237 @@ example :
   decide +kernel
 
 end Mahotas.C12.Examples2
+
+
+/-! ## Round 4 — `compute_histogram` (`_histogram.cpp`, behind `fullhistogram`, `otsu`, `rc`, `pftas`) -/
+
+open Mahotas Mahotas.C12 in
+/-- **C12-T4 (tie: the histogram program computes `C13.histogram`).** `compute_histogram` is
+`for (i = 0; i != N; ++i) { ++histogram[*data]; ++data; }`: the labeled fold `result[l] = f(v, result[l])` with the image as
+its own label array and `f _ r = r + 1`, so its access program is `Kernel.fold` on the footprint `[aA, aA] → [aRes, aReg]`
+(the same argument array in both input roles: confinement, role well-formedness and independence under every schedule are
+the instances of `C12_kernel_confined`, `C12_kernel_roles_wellformed`, `C12_concurrent_kernels_independent`). Value tie: if
+the memory of array `aA` holds `mA` and the values the iterator reads are non-negative (the wrapper admits unsigned images
+only), then after the SOLO run of the compiled program — zero fill, then one read-modify-write of `histogram[value]` per
+element — bin `j < n` holds exactly `(C13.histogram n values)[j]`, the model the driver runs (`c13 kind=hist`). -/
+theorem C12_histogram_program_computes_model (kcs : List KCall) (t : Nat) (n : Nat) (vA : C08.View) (mA : Int → Int)
+    (aA aRes aReg : Nat)
+    (hk : kcs[t]? = some ((Kernel.fold (fun (_ r : Int) => r + 1) 0 n vA vA mA).call ⟨[aA, aA], [aRes, aReg]⟩))
+    (h1 : aA ≠ aRes) (h2 : aA ≠ aReg) (h5 : aRes ≠ aReg) (m : Mem)
+    (hA : ∀ a, m ((KLoc.mk aA a).toLoc (kcs.map (·.call))) = mA a)
+    (hnn : ∀ k, k < shapeSize vA.shape → 0 ≤ C08.readIter mA vA k)
+    (j : Nat) (hj : j < n) :
+    solo (compile kcs) t m ((KLoc.mk aRes (j : Int)).toLoc (kcs.map (·.call))) =
+      (((C13.histogram n ((List.range (shapeSize vA.shape)).map (C08.readIter mA vA))).getD j 0 : Nat) : Int) := by
+  have h := C12_labeled_fold_program_computes_model kcs t (fun (_ r : Int) => r + 1) 0 n vA vA mA mA aA aA aRes aReg hk
+    h1 h2 h1 h2 h5 m hA hA j hj
+  unfold C08.labeledFoldView at h
+  simp only at h
+  rw [hist_fold_eq n _ (by
+    intro v hv
+    simp only [List.mem_map, List.mem_range] at hv
+    obtain ⟨k, hk', rfl⟩ := hv
+    exact hnn k hk')] at h
+  rw [Array.getElem?_map] at h
+  generalize C13.histogram n ((List.range (shapeSize vA.shape)).map (C08.readIter mA vA)) = H at h ⊢
+  rw [Array.getD_eq_getD_getElem?]
+  cases hH : H[j]? with
+  | none => rw [hH] at h; simp at h
+  | some c => rw [hH] at h; simp at h; simp [h]
+
+namespace Mahotas.C12.Examples4
+open Mahotas Mahotas.C12
+/-- non-vacuity: the fold model with the image as its own labels IS the histogram, on a reversed strided view -/
+def memH : Int → Int := fun a => [2, 9, 0, 9, 2, 9, 1].getD a.toNat 0
+def vHr : C08.View := { base := 6, shape := [4], strides := [-2] }
+example : (List.range 4).map (C08.readIter memH vHr) = [1, 2, 0, 2] ∧
+    (C08.labeledFoldView (fun (_ r : Int) => r + 1) 0 3 memH vHr memH vHr).toList = [1, 1, 2] ∧
+    (C13.histogram 3 [1, 2, 0, 2]).toList = [1, 1, 2] := by decide +kernel
+end Mahotas.C12.Examples4
+
+
+/-! ## Round 4 — hand-written releases of the interpreter lock -/
+
+/-- a hand-written release is disciplined when a re-acquire follows it in the same function and nothing between the two can
+leave the function (no `return`, `throw`, `goto`, no dispatch macro whose catch clause returns) -/
+def rawSiteOk (s : Mahotas.Generated.RawGilSite) : Bool := decide (1 ≤ s.restores) && s.exits == 0
+
+/-- **C12-T2 (source tie, hand-written releases).** The translator extracts EVERY use of the interpreter's own release API
+(`PyEval_SaveThread`, `Py_BEGIN_ALLOW_THREADS`, `Py_UNBLOCK_THREADS`, `PyGILState_Release`) outside the body of the RAII class
+`gil_release` (`Generated.rawGilSites`, regenerated on every run; today the list is empty: the code base releases the lock only
+through the RAII object, whose sites `C12_release_sites_disciplined` covers). Each such site must be followed by a re-acquire in
+the same function with no exit in between — otherwise an error path returns to the interpreter without the lock (the fourth
+idiom, which none of the three proved skeletons covers). A release guarded by a size threshold whose error path skips the
+re-acquire (`if (size >= 4096) ts = PyEval_SaveThread(); … SAFE_SWITCH…; if (ts) PyEval_RestoreThread(ts);`) is rejected
+before any input runs. -/
+theorem C12_raw_release_sites_disciplined : Mahotas.Generated.rawGilSites.all rawSiteOk = true := by decide
+
+/-- the checker is not vacuous: it rejects the size-gated release whose dispatch macro can return in between, and a release
+that is never followed by a re-acquire; it accepts a straight-line `Py_BEGIN_ALLOW_THREADS … Py_END_ALLOW_THREADS` pair -/
+example : rawSiteOk ⟨"mahotas/_interpolate.cpp", "py_spline_filter1d", 387, "PyEval_SaveThread", 1, 3⟩ = false ∧
+    rawSiteOk ⟨"mahotas/_x.cpp", "f", 10, "PyEval_SaveThread", 0, 0⟩ = false ∧
+    rawSiteOk ⟨"mahotas/_x.cpp", "g", 20, "Py_BEGIN_ALLOW_THREADS", 1, 0⟩ = true := by decide
+
+/-! ## Round 4 — third table of access programs (`Model/C12Kernels3.lean`): `majority_filter`, `locmin_max`, `hitmiss` -/
+
+open Mahotas Mahotas.C12 in
+/-- **C12-T4 (third table: confinement).** `C12_kernel_confined` for every kernel of `Kernel3` (`majority_filter`,
+a gather kernel reading `input.at(y+dy, x+dx)` on any strides, and `locmin_max` behind locmax/locmin/regmax/regmin): on every footprint with at least one owned array every
+step is `Within` the call (write set ⊆ outputs, read set ⊆ inputs ∪ outputs), and in every family of calls with pairwise
+disjoint outputs every compiled step is `Step.Confined t` — so `C12_concurrent_calls_independent` gives: after EVERY
+schedule each owned location equals the solo run. -/
+theorem C12_kernels3_confined (k : Kernel3) (c : Call) (hne : c.outputs ≠ []) :
+    (∀ s ∈ (k.call c).prog, s.Within c) ∧
+    (∀ l ∈ writeSet (k.call c).prog, l.arr ∈ c.outputs) ∧
+    (∀ l ∈ readSet (k.call c).prog, l.arr ∈ c.inputs ∨ l.arr ∈ c.outputs) ∧
+    (∀ (kcs : List KCall) (t : Nat), kcs[t]? = some (k.call c) → DisjointOutputs (kcs.map (·.call)) →
+      ∀ s ∈ compile kcs t, s.Confined t) := by
+  have hw : ∀ s ∈ (k.call c).prog, s.Within c := prog_within (k.call c) hne
+  refine ⟨hw, ?_, ?_, ?_⟩
+  · intro l hl
+    simp only [writeSet, List.mem_map] at hl
+    obtain ⟨s, hs, rfl⟩ := hl
+    exact (hw s hs).1
+  · intro l hl
+    simp only [readSet, List.mem_flatMap] at hl
+    obtain ⟨s, hs, hl⟩ := hl
+    exact (hw s hs).2 l hl
+  · intro kcs t ht hd s hs
+    unfold compile at hs
+    rw [ht] at hs
+    simp only [List.mem_map] at hs
+    obtain ⟨ks, hks, rfl⟩ := hs
+    exact compile_step_confined _ hd t c (by simp [ht, Kernel3.call]) ks (hw ks hks)
+
+open Mahotas Mahotas.C12 in
+/-- **C12-T4 (third table: roles within the arity).** Every role a step of a `Kernel3` program mentions exists in a call of
+the kernel's arity; on every footprint with at least that arity the strict resolution `mkStep?` (which fails instead of
+falling back to a default array) returns exactly `mkStep c r`. -/
+theorem C12_kernels3_roles_ok (k : Kernel3) :
+    (∀ r ∈ k.raw, r.rolesOk k.arity = true) ∧
+    (∀ c : Call, c.HasArity k.arity → ∀ r ∈ k.raw, mkStep? c r = some (mkStep c r)) :=
+  ⟨kernel3_rolesOk k, fun c hc r hr => mkStep?_of_rolesOk c k.arity hc r (kernel3_rolesOk k r hr)⟩
+
+open Mahotas Mahotas.C12 in
+/-- **C12-T4 (tie: the majority_filter program computes the kernel's count test).** Let call number `t` of ANY family of calls
+be `majority_filter` with window `n` on a `rows × cols` image (`n ≤ rows`, `n ≤ cols`; any view `vA` of the image: the C++
+reads `input.at(y+dy, x+dx)`) on arrays `[aA]` → `[aOut]`, `aA ≠ aOut`. If the initial memory holds `mA` in array `aA` and the
+output array is zero (`PyArray_FILLWBYTE(res_a, 0)`), then after the SOLO run of the compiled step program — one step per
+window `k`, whose operation recounts the window from the `n·n` values READ — the output cell `(y+n/2)*cols + n/2 + x` of
+window `(y, x) = (k / (cols−n), k % (cols−n))` holds `1` exactly when `C08.majorityCount n pixels y x ≥ n*n/2` and `0`
+otherwise: the very count and threshold of `C08.majorityLoops`, the model the driver runs (`c08 kind=kviewA
+kernel=majority`, compared with the compiled `mahotas.majority_filter` on strided views). With
+`C12_concurrent_calls_independent` the same values are there after every complete interleaving with any other calls that
+have disjoint outputs. -/
+theorem C12_majority_program_computes_model (kcs : List KCall) (t : Nat) (n rows cols : Nat) (vA vOut : C08.View)
+    (aA aOut : Nat) (hsh : vA.shape = [rows, cols]) (hr : n ≤ rows) (hc : n ≤ cols)
+    (hk : kcs[t]? = some ((Kernel3.majority n vA vOut).call ⟨[aA], [aOut]⟩))
+    (hne : aA ≠ aOut) (mA : Int → Int) (m : Mem)
+    (hA : ∀ a, m ((KLoc.mk aA a).toLoc (kcs.map (·.call))) = mA a)
+    (hZ : ∀ a, m ((KLoc.mk aOut a).toLoc (kcs.map (·.call))) = 0)
+    (k : Nat) (hkn : k < (rows - n) * (cols - n)) :
+    solo (compile kcs) t m
+        ((KLoc.mk aOut (vOut.base + ((majIdx n cols (k / (cols - n)) (k % (cols - n)) : Nat) : Int))).toLoc
+          (kcs.map (·.call))) =
+      if C08.majorityCount n (fun y x => mA (vA.at [y, x]) != 0) (k / (cols - n)) (k % (cols - n)) ≥ n * n / 2
+      then 1 else 0 :=
+  majority_solo_value kcs t n rows cols vA vOut aA aOut hsh hr hc hk hne mA m hA hZ k hkn
+
+open Mahotas Mahotas.C12 in
+/-- **C12-T4 (tie: the locmin_max program computes `C14.locAt`).** Let call number `t` of ANY family of calls be `locmin_max`
+(minima or maxima; any views of the image and the result; `Bc` with its centre removed, as the wrappers of
+locmax/locmin/regmax/regmin pass it) on arrays `[aA, aBc]` → `[aOut, aFd]` (result, `filter_data_`), the image array distinct
+from both owned arrays and these from each other. If the initial memory presents the logical image `A` through the view `vA` —
+at every position the `ExtendNearest` rule delivers and at the addresses the array iterator visits — the result array is zero
+(`PyArray_FILLWBYTE(output, 0)`) and the result view does not overlap itself, then after the SOLO run of the compiled step
+program — one step per pixel that re-evaluates the neighbour test from the values READ and stores `1` or the old cell — the
+result location of pixel `k` holds `1` exactly when `C14.locAt isMin A (C14.neighbours bshape bc) (unravel k)` and `0`
+otherwise: the model the driver runs (`c14 kind=loc`, and `C08.locView` over views), proved equal to "no neighbour inside the
+image beats the pixel" in C14. With `C12_concurrent_calls_independent` the same marks are there after every complete
+interleaving with any other calls that have disjoint outputs. -/
+theorem C12_locminmax_program_computes_model (kcs : List KCall) (t : Nat) (isMin : Bool) (vA vOut vBc : C08.View)
+    (bc : Array Int) (aA aBc aOut aFd : Nat)
+    (hk : kcs[t]? = some ((Kernel3.locminmax isMin vA vOut vBc bc).call ⟨[aA, aBc], [aOut, aFd]⟩))
+    (hne1 : aA ≠ aOut) (hne2 : aA ≠ aFd) (hne3 : aOut ≠ aFd)
+    (A : Img Int) (hshape : A.shape = vA.shape) (hpos : ∀ d ∈ vA.shape, 0 < d) (m : Mem)
+    (hA : ∀ q q', fixPos .nearest vA.shape q = some q' →
+        m ((KLoc.mk aA (vA.addr (q'.map Int.toNat))).toLoc (kcs.map (·.call))) = A.getD q' 0)
+    (hC : ∀ k, k < shapeSize vA.shape →
+        m ((KLoc.mk aA (iterAddr vA k)).toLoc (kcs.map (·.call))) = A.getD (unravelI vA.shape k) 0)
+    (hZ : ∀ a, m ((KLoc.mk aOut a).toLoc (kcs.map (·.call))) = 0)
+    (hinj : ∀ k k', k < shapeSize vA.shape → k' < shapeSize vA.shape →
+        iterAddr vOut k = iterAddr vOut k' → k = k')
+    (k : Nat) (hkn : k < shapeSize vA.shape) :
+    solo (compile kcs) t m ((KLoc.mk aOut (iterAddr vOut k)).toLoc (kcs.map (·.call))) =
+      if C14.locAt isMin A (C14.neighbours vBc.shape bc) (unravelI vA.shape k) then 1 else 0 :=
+  locminmax_solo_value kcs t isMin vA vOut vBc bc aA aBc aOut aFd hk hne1 hne2 hne3 A hshape hpos m hA hC hZ hinj k hkn
+
+open Mahotas Mahotas.C12 in
+/-- **C12-T4 (tie: the hitmiss program computes the C08 view model of `hitmiss`).** Let call number `t` of ANY family of calls
+be `hitmiss` on arrays `[aA, aBc]` → `[aOut]` (`aA ≠ aOut`), its program generated from the neighbour table `tab`
+(`C08.hmTable vA mB vB`: flat deltas and required values of the template entries different from 2) of a template of shape
+`bshape`; the input may be ANY view (the kernel reads `input.at_flat(i + delta)`). If the initial memory holds `mA` in array
+`aA` and the result view does not overlap itself, then after the SOLO run of the compiled step program — one unconditional
+store per pixel, recomputed from the values READ — the result location of pixel `k` holds exactly the cell `k` of
+`C08.hitmissView mA vA mB vB`: `0` where `C14.hmEvaluated` skips the pixel, else `1` iff every table entry matches. That model
+is run by the driver (`c08 kind=kview kernel=hitmiss`, compared with the compiled function on strided views) and proved equal
+to `C14.hitmissAt` and the hit-or-miss definition (`C08_hitmiss_view_correct`). -/
+theorem C12_hitmiss_program_computes_model (kcs : List KCall) (t : Nat) (vA vOut : C08.View) (mB : Int → Int)
+    (vB : C08.View) (aA aBc aOut : Nat)
+    (hk : kcs[t]? = some ((Kernel3.hitmiss vA vOut (C08.hmTable vA mB vB) vB.shape).call ⟨[aA, aBc], [aOut]⟩))
+    (hne : aA ≠ aOut) (mA : Int → Int) (m : Mem)
+    (hA : ∀ a, m ((KLoc.mk aA a).toLoc (kcs.map (·.call))) = mA a)
+    (hinj : ∀ k k', k < shapeSize vA.shape → k' < shapeSize vA.shape →
+        iterAddr vOut k = iterAddr vOut k' → k = k')
+    (k : Nat) (hkn : k < shapeSize vA.shape) :
+    some (solo (compile kcs) t m ((KLoc.mk aOut (iterAddr vOut k)).toLoc (kcs.map (·.call)))) =
+      (C08.hitmissView mA vA mB vB).getD k none := by
+  rw [hitmiss_solo_value kcs t vA vOut (C08.hmTable vA mB vB) vB.shape aA aBc aOut hk hne mA m hA hinj k hkn]
+  unfold C08.hitmissView
+  rw [C08.pixelLoop_eq, Array.getD_eq_getD_getElem?, List.getElem?_toArray, List.getElem?_map, List.getElem?_range hkn]
+  simp only [Option.map_some, Option.getD_some]
+
+namespace Mahotas.C12.Examples4
+open Mahotas.C12.Examples2
+/-- non-vacuity: a 4×4 bool image in Fortran order (array 10), window 2, output array 20: the solo run of the compiled
+program marks exactly the cells `C08.majorityView` marks; 4 steps, all inside the footprint, roles inside the arity -/
+def vJ : C08.View := { base := 0, shape := [4, 4], strides := [1, 4] }
+def vO : C08.View := { base := 0, shape := [4, 4], strides := [4, 1] }
+def km : Kernel3 := .majority 2 vJ vO
+def cm : Call := ⟨[10], [20]⟩
+def contentJ : List (KLoc × Val) :=
+  [(⟨10,0⟩,1),(⟨10,1⟩,1),(⟨10,2⟩,1),(⟨10,4⟩,1),(⟨10,5⟩,1),(⟨10,8⟩,1)]
+example :
+    outOf [cm] (solo (compile [km.call cm]) 0 (memOf [cm] contentJ)) 20 16 =
+      [0, 0, 0, 0, 0, 1, 1, 0, 0, 1, 0, 0, 0, 0, 0, 0] ∧
+    (C08.majorityView 2 (fun a => if a = 0 ∨ a = 1 ∨ a = 2 ∨ a = 4 ∨ a = 5 ∨ a = 8 then 1 else 0) vJ).toList.map
+        (fun o => if o.getD false then (1 : Int) else 0) = [0, 0, 0, 0, 0, 1, 1, 0, 0, 1, 0, 0, 0, 0, 0, 0] ∧
+    (km.call cm).prog.length = 4 ∧
+    ((km.call cm).prog.all (KStep.withinB cm)) = true ∧
+    (km.raw.all (RStep.rolesOk km.arity)) = true := by
+  decide +kernel
+/-- a `locmax` call on `[5,3,7,0]` with neighbourhood `[1,0,1]` (centre removed) running concurrently with the majority call on
+disjoint outputs: interleaved = solo = `C14.locModel` -/
+example :
+    let kl : Kernel3 := .locminmax false v4 v4 v3 #[1, 0, 1]
+    let cl : Call := ⟨[10, 11], [30, 31]⟩
+    let contentL : List (KLoc × Val) := [(⟨10,0⟩,5),(⟨10,1⟩,3),(⟨10,2⟩,7),(⟨10,3⟩,0),(⟨11,0⟩,1),(⟨11,1⟩,0),(⟨11,2⟩,1)]
+    outOf [cl] (solo (compile [kl.call cl]) 0 (memOf [cl] contentL)) 30 4 = [1, 0, 1, 0] ∧
+    (C14.locModel false ⟨[4], #[5, 3, 7, 0]⟩ (C14.neighbours [3] #[1, 0, 1])).toList = [true, false, true, false] ∧
+    ((kl.call cl).prog.all (KStep.withinB cl)) = true ∧
+    (kl.raw.all (RStep.rolesOk kl.arity)) = true := by
+  decide +kernel
+/-- a `hitmiss` call: input `[1,0,1,1]` (array 10), template `[1,2,1]` read from Bc's memory; the solo run of the compiled
+program = `C08.hitmissView` (the margins are skipped, pixel 2 does not match, pixel 1 does) -/
+example :
+    let mT : Int → Int := fun a => [1, 2, 1].getD a.toNat 0
+    let mI : Int → Int := fun a => [1, 0, 1, 1].getD a.toNat 0
+    let kh : Kernel3 := .hitmiss v4 v4 (C08.hmTable v4 mT v3) [3]
+    let ch : Call := ⟨[10, 11], [30]⟩
+    let contentH : List (KLoc × Val) := [(⟨10,0⟩,1),(⟨10,1⟩,0),(⟨10,2⟩,1),(⟨10,3⟩,1)]
+    outOf [ch] (solo (compile [kh.call ch]) 0 (memOf [ch] contentH)) 30 4 = [0, 1, 0, 0] ∧
+    (C08.hitmissView mI v4 mT v3).toList = [some 0, some 1, some 0, some 0] ∧
+    ((kh.call ch).prog.all (KStep.withinB ch)) = true ∧
+    (kh.raw.all (RStep.rolesOk kh.arity)) = true := by
+  decide +kernel
+end Mahotas.C12.Examples4
